@@ -408,7 +408,8 @@ Inductive op :=
 | OAdd (dst r : nat) (a : addarg)                        (* d + None, d + 0: return d itself *)
 | OCopy (dst r : nat)
 | ORange (dst r : nat) (a b s : Z)
-| OSub (dst r : nat) (ks : list colname).                 (* d - key, d - [keys]: a copy without these columns, absent ones ignored *)                       (* d[range(a, b, s)] = d[list(range(a, b, s))] *)
+| OSub (dst r : nat) (ks : list colname)
+| OAnd (dst r : nat) (names : list colname).              (* d & names = d[d.columns & names]: the columns of d that are named, in d's order *)                 (* d - key, d - [keys]: a copy without these columns, absent ones ignored *)                       (* d[range(a, b, s)] = d[list(range(a, b, s))] *)
 
 Inductive out :=
 | OutOk | OutErr (e : err) | OutRec (r : record) | OutCells (l : list cell)
@@ -435,19 +436,20 @@ Record TOps (T : Type) := mkOps {
   t_relabel : T -> relspec -> res T;
   t_do : T -> list colfn -> option (list colname) -> res T;
   t_concat : list T -> res T;
-  t_of_record : record -> res T
+  t_of_record : record -> res T;
+  t_keys : T -> list colname
 }.
 Arguments mkOps {T}. Arguments t_empty {T}. Arguments t_new_records {T}. Arguments t_new_cols {T}. Arguments t_new_rows {T}.
 Arguments t_set {T}. Arguments t_del {T}. Arguments t_getrow {T}. Arguments t_getcol {T}. Arguments t_tuple {T}.
 Arguments t_apply {T}. Arguments t_iter {T}. Arguments t_slice {T}. Arguments t_mask {T}. Arguments t_ints {T}.
-Arguments t_proj {T}. Arguments t_call {T}. Arguments t_relabel {T}. Arguments t_do {T}. Arguments t_concat {T}. Arguments t_of_record {T}.
+Arguments t_proj {T}. Arguments t_call {T}. Arguments t_relabel {T}. Arguments t_do {T}. Arguments t_concat {T}. Arguments t_of_record {T}. Arguments t_keys {T}.
 
 Definition cops : TOps ctable :=
   mkOps [] c_new_records c_new_cols c_new_rows c_set c_del c_getrow c_getcol c_tuple c_apply c_iter
-        c_slice c_mask c_ints c_proj c_call c_relabel c_do c_concat c_of_record.
+        c_slice c_mask c_ints c_proj c_call c_relabel c_do c_concat c_of_record (@keys (list cell)).
 Definition rops : TOps rtable :=
   mkOps r_empty r_new_records r_new_cols r_new_rows r_set r_del r_getrow r_getcol r_tuple r_apply recs
-        r_slice r_mask r_ints r_proj r_call r_relabel r_do r_concat r_of_record.
+        r_slice r_mask r_ints r_proj r_call r_relabel r_do r_concat r_of_record cols.
 
 (* registers hold references into a heap of tables: two registers may name the same table *)
 Record gstate (T : Type) := mkS { regs : list nat; heap : list T }.
@@ -516,6 +518,7 @@ Definition step (s : gstate T) (o : op) : gstate T * out :=
   | ORange dst r a b st =>          (* range(a, b, 0) raises ValueError before the table is touched *)
       fresh s dst (if Z.eqb st 0 then Err EValue else t_ints O (rd s r) (py_range a b st))
   | OSub dst r ks => fresh s dst (Ok (sub_keys (rd s r) ks))
+  | OAnd dst r names => fresh s dst (t_proj O (rd s r) (filter (fun k => mem k names) (t_keys O (rd s r))))
   end.
 (* a history: the final state and every output, oldest first *)
 Definition run (s : gstate T) (ops : list op) : gstate T * list out :=
